@@ -271,19 +271,21 @@ def replay_all(chk, recs, pid_clause):
 # ---- code -> spec: random histories chosen from the real tree's views ---------------------------------------
 def path_of(soup, expr):
     """path of an expression below the root (t, j, i) steps, by identity"""
+    from TexSoup.data import TexExpr
+
     def walk(e, prefix):
         for j, a in enumerate(e.args, 1):
             for i, x in enumerate(getattr(a, '_contents', []), 1):
                 if x is expr:
                     return prefix + [[1, j, i]]
-                if hasattr(x, '_contents') and not isinstance(x, str):
+                if isinstance(x, TexExpr) and not isinstance(x, str):
                     r = walk(x, prefix + [[1, j, i]])
                     if r:
                         return r
         for i, x in enumerate(e._contents, 1):
             if x is expr:
                 return prefix + [[0, 0, i]]
-            if hasattr(x, '_contents') and not isinstance(x, str):
+            if isinstance(x, TexExpr) and not isinstance(x, str):
                 r = walk(x, prefix + [[0, 0, i]])
                 if r:
                     return r
